@@ -1206,7 +1206,7 @@ func c09Constants(r *Run) {
 // ---------------------------------------------------------------- entry
 
 func runC09(r *Run, rng *Rng, replay string) {
-	nMask, nRes, nCP, nPart := 400, 1500, 1200, 150
+	nMask, nRes, nCP, nPart := 600, 3000, 2500, 300
 	if r.Tier == "thorough" {
 		nMask, nRes, nCP, nPart = 4000, 30000, 20000, 3000
 	}
